@@ -367,6 +367,9 @@ var c01Templates = []tmpl{
 		return tOut{val: rvBool(true), emits: []int64{a, 5, b, 6}, checkEmits: true}
 	}},
 	{"nil-default-counts-as-a-default", `f := func(x, y=nil) { if y == nil { return x }; return 0 }; f(a)`, func(a, b, c, n int64) tOut { return outInt(a) }},
+	{"switch-without-cases-as-an-expression", `l := [1, switch a { }, 3]; len(l) + l[0] + l[2]`, func(a, b, c, n int64) tOut { return outInt(3 + 1 + 3) }},
+	{"switch-without-cases-in-a-loop", `s := 0; for i := 0; i < 3; i++ { switch i { }; s += i }; s + a`, func(a, b, c, n int64) tOut { return outInt(3 + a) }},
+	{"expression-as-for-init", `x := 0; s := 0; for j := 0; j < 3; j++ { for x; x < 1; x++ { s += 1 } }; s + a`, func(a, b, c, n int64) tOut { return outInt(1 + a) }},
 	{"error-raised", `error("boom"); a`, func(a, b, c, n int64) tOut { return outErr() }},
 	{"division-by-zero-error", `a / b`, func(a, b, c, n int64) tOut {
 		if b == 0 {
